@@ -26,7 +26,8 @@ def var(conv, name, pre="", post="", n=0, m=0, signed=False, items=()):
 
 
 def rule(segs, branch=False, methods=None, strict="d", merge="d", endpoint=None, defaults=(), alias=False):
-    return {"segs": list(segs), "branch": branch, "methods": methods, "strict": strict, "merge": merge,
+    segs = list(segs)
+    return {"segs": segs, "branch": bool(branch or not segs), "methods": methods, "strict": strict, "merge": merge,
             "endpoint": endpoint, "defaults": list(defaults), "alias": alias}
 
 
